@@ -53,6 +53,10 @@ pub struct ChainParams {
     pub n_types: usize,
     /// probability (percent) that a block carries extra bytes after the chain root
     pub ext_extra_pct: u64,
+    /// epoch difficulty trend: 0 random walk, 1 sustained increase, 2 sustained decrease,
+    /// 3 runs of several epochs in one direction
+    #[serde(default)]
+    pub trend: u64,
 }
 
 impl Default for ChainParams {
@@ -67,6 +71,7 @@ impl Default for ChainParams {
             n_locks: 5,
             n_types: 2,
             ext_extra_pct: 20,
+            trend: 0,
         }
     }
 }
@@ -514,8 +519,22 @@ impl World {
                 1.0
             } else {
                 let span = 0.9 * (params.drift.min(100) as f64) / 100.0;
-                let up = rng.chance(1, 2);
-                let x = 1.0 + span * rng.f64();
+                // keep block difficulties inside u64 (and minable for the real PoW engine)
+                let cur_block = u256_to_u128(&old_block_diff);
+                let ceiling: u128 = if params.pow == PowKind::Eaglesong { 1 << 13 } else { 1 << 56 };
+                let up = if cur_block > ceiling {
+                    false
+                } else { match params.trend {
+                    1 => true,
+                    2 => false,
+                    3 => ((pe.number() + 1) / 4) % 2 == 0,
+                    _ => rng.chance(1, 2),
+                } };
+                let x = if params.trend == 0 {
+                    1.0 + span * rng.f64()
+                } else {
+                    1.0 + span * (0.6 + 0.4 * rng.f64())
+                };
                 if up {
                     x
                 } else {
@@ -545,7 +564,7 @@ impl World {
                         block_diff = (block_diff - block_diff / 8).saturating_sub(1).max(2);
                     }
                 } else {
-                    block_diff = block_diff + block_diff / 8 + 1;
+                    block_diff = block_diff.saturating_add(block_diff / 8 + 1);
                 }
                 let r = real_difficulty(block_diff.max(2));
                 c = r.0;
